@@ -87,7 +87,11 @@ type contRun struct {
 	enrs      []enrEv
 	L, nb, na time.Duration
 	failed    bool
+	// repeatDial: inside the repetitions of one dial
+	repeatDial bool
 }
+
+func (h *contRun) violated() bool { return h.failed }
 
 func (h *contRun) vnow() time.Time { return time.Now().Add(h.vtotal) }
 
@@ -452,6 +456,30 @@ func (h *contRun) dial() {
 		return
 	}
 	h.c.R.Count("real_dials_succeeded", 1)
+	// the node holds two chains that are valid now and the server trusts the root of only one of them: which
+	// chain the client side offers first is a matter of map order, so the dial is repeated a few times (the
+	// credentials in storage stay as they are)
+	if h.repeatDial {
+		return
+	}
+	set := h.setAt(h.vnow())
+	valid, trusted := 0, 0
+	for _, ch := range enr.chains {
+		if r := h.roots[ch.issuer]; r != nil && !h.vnow().Before(ch.nb) && !h.vnow().After(ch.na) {
+			valid++
+			if set != nil && (ch.issuer == set.cur || ch.issuer == set.next) {
+				trusted++
+			}
+		}
+	}
+	if valid == 2 && trusted == 1 {
+		h.c.R.Count("dials_repeated(two valid chains, one trusted root)", 1)
+		h.repeatDial = true
+		for i := 0; i < 4 && !h.violated(); i++ {
+			h.dial()
+		}
+		h.repeatDial = false
+	}
 }
 
 func runContCase(c *engine.Ctx, cc contCase) {
@@ -472,7 +500,14 @@ func runContCase(c *engine.Ctx, cc contCase) {
 		nodeBound = time.Duration(float64(P) * cc.NodeFrac)
 	}
 	var err error
-	h.s, err = world.NewServer(world.ServerCfg{Backend: world.Inmem, StorageWrap: cc.Wrap, NoRoots: true})
+	// one history in three runs on the library's store-once back end (node records are insert-only there; the
+	// roots record is replaced by every rotation that changes something)
+	be := world.Inmem
+	if (cc.Seed+cc.LifetimeS+cc.IntervalS)%3 == 0 {
+		be = world.StoreOnce
+		r.Count("histories_on_the_store_once_back_end", 1)
+	}
+	h.s, err = world.NewServer(world.ServerCfg{Backend: be, StorageWrap: cc.Wrap, NoRoots: true})
 	if err != nil {
 		r.Broken(err.Error())
 		return
